@@ -494,11 +494,21 @@ fn check(args: &[String]) -> i32 {
     hashes.dedup();
     let distinct = hashes.len() as u64;
     let evaluations = merged.get("runs").and_then(|x| x.as_u64()).unwrap_or(0);
-    let violations: Vec<Value> = merged
+    let mut violations: Vec<Value> = merged
         .get("violations")
         .and_then(|x| x.as_array())
         .cloned()
         .unwrap_or_default();
+    // what a hung (killed) worker had found before it hung
+    for w in &hung {
+        if let Ok(t) = std::fs::read_to_string(format!("{dir}/viol_{w}.jsonl")) {
+            for l in t.lines() {
+                if let Ok(v) = serde_json::from_str::<Value>(l) {
+                    violations.push(v);
+                }
+            }
+        }
+    }
     println!("[{:.1}s] reports merged: {} failing runs reported", t0.elapsed().as_secs_f64(), violations.len());
     let mut tri = triage(&prop, seed, &violations, spurious);
     println!("[{:.1}s] triage (minimise + replay) finished", t0.elapsed().as_secs_f64());
@@ -556,7 +566,7 @@ fn check(args: &[String]) -> i32 {
     let mut samples = merged.get("samples").cloned().unwrap_or(json!([]));
     if let Some(a) = samples.as_array_mut() {
         a.truncate(6);
-        if a.is_empty() {
+        if a.is_empty() && exit == 0 {
             println!("HARNESS-ERROR no sample case was recorded by any worker");
             exit = 2;
         }
